@@ -63,6 +63,56 @@ VARIANTS = [
          file="cotengra/pathfinders/path_simulated_annealing.py",
          old="        if ix in legsb:\n            ix_count += legsb[ix]\n", new="        if ix in legsb:\n            continue\n",
          expect=("C04-PRESURV", "merged-sum")),
+    dict(name="tracker pairs copied in one loop, _sizes by reference", kind="break", file=CORE,
+         old="""        self._track_flops = other._track_flops
+        if other._track_flops:
+            self._flops = other._flops
+
+        self._track_write = other._track_write
+        if other._track_write:
+            self._write = other._write
+
+        self._track_size = other._track_size
+        if other._track_size:
+            self._sizes = other._sizes.copy()
+""", new="""        for flag, attr in (
+            ("_track_flops", "_flops"),
+            ("_track_write", "_write"),
+            ("_track_size", "_sizes"),
+        ):
+            tracked = getattr(other, flag)
+            setattr(self, flag, tracked)
+            if tracked:
+                setattr(self, attr, getattr(other, attr))
+""", expect=("C04-COPY", "_sizes")),
+    dict(name="restore_ind hands a rescaled cached cost to contract_nodes_pair", kind="break", file=CORE,
+         old="                tree._remove_node(p)\n                tree.contract_nodes_pair(l, r)\n",
+         new="                cost = tree.get_flops(p) * si.size\n                tree._remove_node(p)\n                tree.contract_nodes_pair(l, r, cost=cost)\n",
+         expect=("C04-PRESRC", "restore_ind")),
+    dict(name="twin: tracker pairs copied in one loop, all through copy.copy", kind="twin", file=CORE,
+         old="""        self._track_flops = other._track_flops
+        if other._track_flops:
+            self._flops = other._flops
+
+        self._track_write = other._track_write
+        if other._track_write:
+            self._write = other._write
+
+        self._track_size = other._track_size
+        if other._track_size:
+            self._sizes = other._sizes.copy()
+""", new="""        import copy
+
+        for flag, attr in (
+            ("_track_flops", "_flops"),
+            ("_track_write", "_write"),
+            ("_track_size", "_sizes"),
+        ):
+            tracked = getattr(other, flag)
+            setattr(self, flag, tracked)
+            if tracked:
+                setattr(self, attr, copy.copy(getattr(other, attr)))
+"""),
     dict(name="twin: rename old_flops/new_flops", kind="twin",
          edits=[(CORE, "                old_flops = tree.get_flops(node)\n                new_flops = old_flops // d\n                node_info[\"flops\"] = new_flops\n                tree._flops += new_flops - old_flops\n",
                  "                f_old = tree.get_flops(node)\n                f_new = f_old // d\n                node_info[\"flops\"] = f_new\n                tree._flops += f_new - f_old\n")]),
